@@ -139,4 +139,6 @@ class BaseSchema(ABC):
         """
 
     def __setstate__(self, state):
-        self.__dict__ = state
+        # copy.copy() passes the original's ``__dict__`` itself as the state:
+        # take a copy so that the new object does not share it.
+        self.__dict__ = {**state}
